@@ -745,6 +745,20 @@ def _hand_on_condition(gate, new_gates):
             new_gate.classical_control_value = gate.classical_control_value
 
 
+def _qubits_as_lists(gate, new_gates):
+    """
+    The rules hand ``gate.targets`` / ``gate.controls`` on as they are and
+    index into them. The gates that replace ``gate`` keep their qubits in
+    lists, also if ``gate`` keeps its own in tuples or arrays.
+    """
+    for new_gate in new_gates:
+        if new_gate is not gate:
+            if new_gate.targets is not None:
+                new_gate.targets = list(new_gate.targets)
+            if new_gate.controls is not None:
+                new_gate.controls = list(new_gate.controls)
+
+
 def _resolve_2q_basis(basis, qc_temp, temp_resolved):
     """Dispatch method"""
     method = globals()["_basis_" + str(basis)]
@@ -752,6 +766,7 @@ def _resolve_2q_basis(basis, qc_temp, temp_resolved):
         start = len(qc_temp.gates)
         method(qc_temp, [gate])
         _hand_on_condition(gate, qc_temp.gates[start:])
+        _qubits_as_lists(gate, qc_temp.gates[start:])
 
 
 def _resolve_to_universal(gate, temp_resolved, basis_1q, basis_2q):
@@ -766,3 +781,4 @@ def _resolve_to_universal(gate, temp_resolved, basis_1q, basis_2q):
     start = len(temp_resolved)
     method(gate, temp_resolved)
     _hand_on_condition(gate, temp_resolved[start:])
+    _qubits_as_lists(gate, temp_resolved[start:])
